@@ -309,6 +309,19 @@ def call_builtin(ev, name, args, kwargs, node):
             items = c
         if "initial" in kwargs:
             items.append(kwargs["initial"])
+        if len(args) == 1 and "default" in kwargs:
+            # min(seq, default=d): d for an empty sequence, ignored otherwise
+            if not items:
+                return kwargs["default"]
+        elif set(kwargs) - {"initial", "key"}:
+            raise AnalysisError("%s() with keyword %s" % (name, sorted(kwargs)))
+        if "key" in kwargs:
+            raise AnalysisError("%s() with key=" % name)
+        if not items:
+            from .evalr import RaiseSignal
+            raise RaiseSignal(App("ValueError", (Const("%s() arg is an empty sequence" % name),)), node)
+        if len(items) == 1:
+            return as_v(ev, items[0])
         return mk_app(name, [as_v(ev, i) for i in items])
     if name == "abs":
         return mk_app("abs", [args[0]])
@@ -762,6 +775,11 @@ def np_call(ev, name, args, kwargs, node):
             blk = _block_sum(ev, xv, dict(kw).get("axis"))
             if blk is not None:
                 return blk
+            if isinstance(xv, App) and xv.fn == "not" and len(xv.args) == 1 and isinstance(xv.args[0], App) and xv.args[0].fn in ("isnan", "isfinite", "isinf") \
+                    and len(xv.args[0].args) == 1 and dict(kw).get("axis") == Const(0) and set(dict(kw)) == {"axis"}:
+                # counting the complement of an elementwise test along the first axis: #(not b) = N - #b (integer counts, exact)
+                inner = xv.args[0]
+                return sub(length(ev, inner.args[0]), App(fn, (inner,), kw))
         return App(fn, (xv,), kw)
     if name == "sqrt":
         return mk_app("sqrt", [as_v(ev, arg(0))])
